@@ -103,6 +103,14 @@ fn check(case: &str) -> Option<String> {
             None
         }
         "index-nonlist" => {
+            // the empty list is a list: its element iterator exists and yields nothing, wherever the empty list comes from
+            for (what, e) in [("Value::Null", Value::Null), ("Value::list(vec![])", Value::list(Vec::<Value>::new())), ("from_str(\"()\")", lexpr::from_str("()").ok()?), ("Value::append(vec![], Null)", Value::append(Vec::<Value>::new(), Value::Null))] {
+                match e.list_iter() { Some(mut it) => if it.next().is_some() { return Some(format!("{}.list_iter() yields an element", what)); }, None => return Some(format!("{}.list_iter() is None although the empty list is a (proper) list", what)) }
+                if !e.is_list() || e.is_dotted_list() || e.to_vec() != Some(vec![]) || e.to_ref_vec().map(|v| v.len()) != Some(0) { return Some(format!("{}: is_list / to_vec disagree about the empty list", what)); }
+            }
+            let nested = Value::list(vec![Value::Null, Value::from(1)]);
+            if nested.list_iter().and_then(|mut it| it.next().and_then(|e| e.list_iter().map(|mut i| i.next().is_none()))) != Some(true) { return Some("the empty list as a list element has no element iterator".into()); }
+            for a in atoms() { if !a.is_null() && !a.is_cons() && a.list_iter().is_some() { return Some(format!("{}.list_iter() is Some for a non-list", a)); } }
             for a in atoms() {
                 for i in [0usize, 1, usize::MAX] {
                     let want = a.as_slice().and_then(|s| s.get(i));
